@@ -49,7 +49,7 @@ func drawC08(rt *rapid.T, tier string) C08Scenario {
 		st := C08Step{Select: rapid.Uint64().Draw(rt, "select"), Order: rapid.Uint64().Draw(rt, "order"), FailCall: -1, ReadErrAt: -1}
 		switch rapid.IntRange(0, 9).Draw(rt, "fault") {
 		case 0:
-			st.Undeliver = rapid.SampledFrom([]string{"absent-value", "absent-key", "malformed", "bad-op"}).Draw(rt, "undeliver")
+			st.Undeliver = rapid.SampledFrom([]string{"absent-value", "absent-key", "malformed", "bad-op", "op-only"}).Draw(rt, "undeliver")
 			st.Position = rapid.IntRange(0, 1000).Draw(rt, "position")
 		case 1:
 			st.FailCall = rapid.IntRange(0, 3).Draw(rt, "fail_call")
@@ -237,6 +237,8 @@ func runC08(t *testing.T, sc C08Scenario, keep bool) *core.Result {
 				bad = `++h1.z0.test,1.2.3.4,60,,\`
 			case "bad-op":
 				bad = "*+h1.z0.test,1.2.3.4,60,,"
+			case "op-only":
+				bad = "+" // an operation without an argument
 			}
 			pos := len(diff) * st.Position / 1000
 			diff = append(diff[:pos], append([]string{bad}, diff[pos:]...)...)
@@ -276,8 +278,18 @@ func runC08(t *testing.T, sc C08Scenario, keep bool) *core.Result {
 			fi.FailAt[st.FailCall] = true
 			fi.OnFail = func(call string, _ int) { injected = true; res.Fault("rocksdb-call-error:" + call) }
 		}
-		aerr := u.ApplyDiff(rd, 4242)
+		var aerr error
+		var panicked interface{}
+		func() {
+			defer func() { panicked = recover() }()
+			aerr = u.ApplyDiff(rd, 4242)
+		}()
 		fi.Suspend = true
+		if panicked != nil {
+			// applying a diff is the operation this property quantifies over: a panic inside it is a violation
+			res.Add("panic", "panic|applydiff", fmt.Sprintf("step %d (%d diff lines, v2=%v): ApplyDiff panicked: %v", i, len(diff), sc.V2, panicked))
+			return res
+		}
 		if !sc.OneHandle {
 			cerr := u.Close()
 			u = nil
